@@ -133,6 +133,10 @@ pub struct Gen<'a, 'd> {
     user_fns: Vec<usize>,
     /// enum-typed variables that are the scrutinee of an enclosing match
     active_scrutinees: Vec<VarId>,
+    /// variables holding closure values (not plain function values)
+    closure_vars: HashSet<VarId>,
+    /// functions whose result is a closure they create
+    closure_ret_fns: HashSet<usize>,
 }
 
 fn is_printable_ty(t: &Ty) -> bool {
@@ -164,6 +168,8 @@ impl<'a, 'd> Gen<'a, 'd> {
             used_names: HashSet::new(),
             user_fns: vec![],
             active_scrutinees: vec![],
+            closure_vars: HashSet::new(),
+            closure_ret_fns: HashSet::new(),
         }
     }
 
@@ -175,7 +181,13 @@ impl<'a, 'd> Gen<'a, 'd> {
     fn item_name(&mut self, pool: &[(&str, &str)], default: String) -> String {
         if self.cfg.hostile_names && self.d.chance(200) {
             let (n, gate) = pool[self.d.below(pool.len())];
-            if !self.used_names.contains(n) && (gate.is_empty() || !self.gates.gated(gate)) {
+            // Ref[A] and Ref[a] share one generated name (KF-30)
+            let folds = self.used_names.iter().any(|u| u != n && u.eq_ignore_ascii_case(n));
+            let fold_ok = !folds || !self.gates.gated("names:ref-case-fold");
+            if fold_ok && !self.used_names.contains(n) && (gate.is_empty() || !self.gates.gated(gate)) {
+                if folds {
+                    self.label("names:ref-case-fold");
+                }
                 self.used_names.insert(n.to_string());
                 self.label("names:hostile-item");
                 if !gate.is_empty() {
@@ -276,7 +288,7 @@ impl<'a, 'd> Gen<'a, 'd> {
             if comp && self.cfg.containers { 6 } else { 0 },           // array
             if comp && self.cfg.containers { 5 } else { 0 },           // ref
             if comp && self.cfg.containers { 4 } else { 0 },           // vec
-            if comp && self.cfg.closures && self.esc_ok { if self.cfg.focus == Focus::Closures { 16 } else { 6 } } else { 0 }, // fn
+            if comp && self.cfg.closures { if self.cfg.focus == Focus::Closures { 16 } else { 6 } } else { 0 }, // fn
         ];
         match self.d.weighted(&w) {
             0 => Ty::Int(self.int_kind()),
@@ -297,7 +309,17 @@ impl<'a, 'd> Gen<'a, 'd> {
             8 => Ty::Vec(Box::new(self.ty(depth.saturating_sub(2)))),
             _ => {
                 let n = self.d.below(3);
-                let ps = (0..n).map(|_| self.ty(depth.saturating_sub(2))).collect();
+                let mut ps: Vec<Ty> = (0..n).map(|_| self.ty(depth.saturating_sub(2))).collect();
+                // `(unit) -> T` and `() -> T` get the same generated type name (KF-30)
+                for t in ps.iter_mut() {
+                    if *t == Ty::Unit {
+                        if self.gates.gated("names:fn-unit-param") {
+                            *t = Ty::Bool;
+                        } else {
+                            self.label("names:fn-unit-param");
+                        }
+                    }
+                }
                 Ty::Fn(ps, Box::new(self.ty(depth.saturating_sub(2))))
             }
         }
@@ -408,6 +430,7 @@ impl<'a, 'd> Gen<'a, 'd> {
                 Expr::Call(Callee::Fn(f, vec![]), vec![])
             }
             Ty::Ref(t) => Expr::Call(Callee::Builtin(Builtin::RefNew), vec![self.const_leaf(t)]),
+            Ty::Fn(ps, r) if !self.esc_ok => self.fn_ref_value(ps, r),
             Ty::Fn(ps, r) => {
                 let saved = self.scope.len();
                 let params: Vec<(VarId, Ty)> =
@@ -781,6 +804,10 @@ impl<'a, 'd> Gen<'a, 'd> {
         let mut out = vec![];
         for (v, known) in self.visible() {
             let vt = self.var_ty(v).clone();
+            if !self.esc_ok && self.closure_vars.contains(&v) {
+                // a closure value must not flow anywhere (KF-05): only called in place
+                continue;
+            }
             if &vt == t {
                 out.push(Expr::Var(v));
             }
@@ -835,13 +862,66 @@ impl<'a, 'd> Gen<'a, 'd> {
                 self.label("ref");
                 Expr::Call(Callee::Builtin(Builtin::RefNew), vec![self.leaf(et)])
             }
-            Ty::Fn(ps, r) => self.closure(ps, r, 0),
+            Ty::Fn(ps, r) => self.closure(ps, r, 0, false),
             Ty::Adt(a, args) => self.adt_value(*a, args, false, 0),
             Ty::Param(_) => self.param_value(t),
         }
     }
 
-    fn closure(&mut self, ps: &[Ty], r: &Ty, fuel: i32) -> Expr {
+    /// a plain function value (reference to a monomorphic top-level function,
+    /// created on demand) of type (ps) -> r
+    fn fn_ref_value(&mut self, ps: &[Ty], r: &Ty) -> Expr {
+        if ps.iter().any(|t| t.has_param()) || r.has_param() {
+            let t = Ty::Fn(ps.to_vec(), Box::new(r.clone()));
+            return self.param_value(&t);
+        }
+        let cands: Vec<usize> = self
+            .callable
+            .iter()
+            .copied()
+            .filter(|f| {
+                let d = &self.p.fns[*f];
+                d.tparams == 0
+                    && !self.closure_ret_fns.contains(f)
+                    && &d.ret == r
+                    && d.params.len() == ps.len()
+                    && d.params.iter().zip(ps).all(|((_, a), b)| a == b)
+            })
+            .collect();
+        if !cands.is_empty() && self.d.chance(128) {
+            self.label("fn-as-value");
+            return Expr::FnRef(cands[self.d.below(cands.len())]);
+        }
+        let key = format!("fv:{:?}->{:?}", ps, r);
+        let f = if let Some(f) = self.mk_fns.get(&key) {
+            *f
+        } else {
+            let saved_scope = std::mem::take(&mut self.scope);
+            let params: Vec<(VarId, Ty)> = ps.iter().map(|t| (self.fresh_named("k", t.clone()), t.clone())).collect();
+            let body = self.const_leaf(r);
+            self.scope = saved_scope;
+            let id = self.p.fns.len();
+            self.p.fns.push(FnDef {
+                name: format!("fv{}", id),
+                tparams: 0,
+                params,
+                ret: r.clone(),
+                body,
+            });
+            self.mk_fns.insert(key, id);
+            id
+        };
+        self.label("fn-as-value");
+        Expr::FnRef(f)
+    }
+
+    /// a value of function type: closure literal or function reference.
+    /// `literal_ok` = the position keeps a closure usable while KF-05 is open
+    /// (let-bound and called locally, or the direct result of a function)
+    fn closure(&mut self, ps: &[Ty], r: &Ty, fuel: i32, literal_ok: bool) -> Expr {
+        if !self.esc_ok && !literal_ok {
+            return self.fn_ref_value(ps, r);
+        }
         // a monomorphic top-level function of exactly this type?
         let cands: Vec<usize> = self
             .callable
@@ -869,9 +949,9 @@ impl<'a, 'd> Gen<'a, 'd> {
         let saved_callable = self.callable.clone();
         let saved_user = self.user_fns.clone();
         if !self.esc_ok {
-            let fns = &self.p.fns;
-            self.callable.retain(|f| !fns[*f].ret.has_fn());
-            self.user_fns.retain(|f| !fns[*f].ret.has_fn());
+            let crf = self.closure_ret_fns.clone();
+            self.callable.retain(|f| !crf.contains(f));
+            self.user_fns.retain(|f| !crf.contains(f));
         }
         let body = if fuel > 1 && self.d.chance(100) {
             self.block(r, fuel - 1)
@@ -1143,7 +1223,7 @@ impl<'a, 'd> Gen<'a, 'd> {
                 let v = self.expr(et, fuel - 1);
                 Expr::Call(Callee::Builtin(Builtin::RefNew), vec![v])
             }
-            Ty::Fn(ps, r) => self.closure(ps, r, fuel),
+            Ty::Fn(ps, r) => self.closure(ps, r, fuel, false),
             Ty::Adt(a, args) => self.adt_value(*a, args, false, fuel),
             Ty::Param(_) => self.param_value(t),
         }
@@ -1456,7 +1536,11 @@ impl<'a, 'd> Gen<'a, 'd> {
         let args = self.call_args(&ps, fuel);
         let v = self.new_var(ret.clone(), true);
         // a returned closure keeps its closure type only without an annotation (KF-05)
-        let ann = if ret.has_fn() && !self.esc_ok { None } else { Some(ret) };
+        let from_closure_fn = self.closure_ret_fns.contains(&f);
+        if from_closure_fn {
+            self.closure_vars.insert(v);
+        }
+        let ann = if from_closure_fn && !self.esc_ok { None } else { Some(ret) };
         Some(vec![Stmt::Let(Pat::Var(v), ann, Expr::Call(Callee::Fn(f, targs), args))])
     }
 
@@ -1556,8 +1640,11 @@ impl<'a, 'd> Gen<'a, 'd> {
                 let n = self.d.below(3);
                 let ps: Vec<Ty> = (0..n).map(|_| self.ty(1)).collect();
                 let r = self.ty(1);
-                let c = self.closure(&ps, &r, fuel);
+                let c = self.closure(&ps, &r, fuel, true);
                 let v = self.new_var(Ty::Fn(ps, Box::new(r)), true);
+                if matches!(c, Expr::Closure(..)) {
+                    self.closure_vars.insert(v);
+                }
                 vec![Stmt::Let(Pat::Var(v), None, c)]
             }
             _ => {
@@ -1625,13 +1712,17 @@ impl<'a, 'd> Gen<'a, 'd> {
                 let k = self.d.below(tparams as usize) as u32;
                 match self.d.below(3) {
                     0 => Ty::Tuple(vec![Ty::Param(k), Ty::i32()]),
-                    1 if self.cfg.closures && self.esc_ok => Ty::Fn(vec![Ty::Param(k)], Box::new(Ty::Param(k))),
+                    1 if self.cfg.closures => Ty::Fn(vec![Ty::Param(k)], Box::new(Ty::Param(k))),
                     _ => Ty::Param(k),
                 }
             } else {
                 self.ty(2)
             };
-            params.push((self.new_param(t.clone(), &mut taken), t));
+            if t.has_param() {
+                params.push((self.fresh_named("p", t.clone()), t));
+            } else {
+                params.push((self.new_param(t.clone(), &mut taken), t));
+            }
         }
         let ret = if tparams > 0 && self.d.chance(170) {
             let k = self.d.below(tparams as usize) as u32;
@@ -1662,9 +1753,9 @@ impl<'a, 'd> Gen<'a, 'd> {
             // its declared func result type: do not call those from here
             let saved_callable = self.callable.clone();
             let saved_user = self.user_fns.clone();
-            let fns = &self.p.fns;
-            self.callable.retain(|f| !fns[*f].ret.has_fn());
-            self.user_fns.retain(|f| !fns[*f].ret.has_fn());
+            let crf = self.closure_ret_fns.clone();
+            self.callable.retain(|f| !crf.contains(f));
+            self.user_fns.retain(|f| !crf.contains(f));
             for _ in 0..k {
                 // the closure must stay the direct result of the body: a destructuring
                 // let would nest it inside a match arm (branch result, KF-05)
@@ -1676,11 +1767,14 @@ impl<'a, 'd> Gen<'a, 'd> {
                 }
                 stmts.extend(ss);
             }
-            let c = self.closure(&ps, &r, 3);
+            let c = self.closure(&ps, &r, 3, true);
             self.callable = saved_callable;
             self.user_fns = saved_user;
             self.scope.truncate(saved);
             self.label("closure:returned");
+            if matches!(c, Expr::Closure(..)) {
+                self.closure_ret_fns.insert(idx);
+            }
             (Ty::Fn(ps, Box::new(r)), Expr::Block(stmts, Some(Box::new(c))))
         } else {
             let body = self.block(&ret, 3);
@@ -1742,7 +1836,10 @@ impl<'a, 'd> Gen<'a, 'd> {
                 body: Expr::Unit,
             });
             self.gen_fn(idx);
-            self.callable.push(idx);
+            // a closure-returning function is only called from `let x = f(..);` (KF-05)
+            if self.esc_ok || !self.closure_ret_fns.contains(&idx) {
+                self.callable.push(idx);
+            }
             self.user_fns.push(idx);
         }
         let idx = self.p.fns.len();
